@@ -49,7 +49,6 @@ def restore_simulation(directory, tax_benefit_system, **kwargs):
         if not population.entity.is_person:
             continue
         _restore_entity(population, entities_dump_dir)
-        population.count = person_count
 
     variables_to_restore = (
         variable for variable in os.listdir(directory) if variable != "__entities__"
@@ -95,6 +94,7 @@ def _restore_entity(population, directory):
     path = os.path.join(directory, population.entity.key)
 
     population.ids = numpy.load(os.path.join(path, "id.npy"))
+    population.count = len(population.ids)
 
     if population.entity.is_person:
         return None
@@ -114,7 +114,6 @@ def _restore_entity(population, directory):
             list(flattened_roles),
         )
     person_count = len(population.members_entity_id)
-    population.count = max(population.members_entity_id) + 1
     return person_count
 
 
